@@ -262,9 +262,9 @@ Section AsML.
     assert (Lz : List.length zs = nleaves td).
     { rewrite <- Hlen. transitivity (List.length (map vsh zs)); [symmetry; apply map_length|]. rewrite T2. apply map_length. }
     assert (Sx : vsh (build dx td xs) = build (vsh dz) td (map vsh xs)).
-    { rewrite build_vsh. apply build_dflt_irrelevant. rewrite map_length. lia. }
+    { rewrite build_vsh. apply build_dflt_irrelevant. rewrite map_length. apply Nat.eq_le_incl. symmetry. exact Hlen. }
     assert (Sy : vsh (build dy td ys) = build (vsh dz) td (map vsh xs)).
-    { rewrite build_vsh, <- T1. apply build_dflt_irrelevant. rewrite map_length. lia. }
+    { rewrite build_vsh, <- T1. apply build_dflt_irrelevant. rewrite map_length. apply Nat.eq_le_incl. symmetry. exact Hlen. }
     destruct (vadd_def (build dx td xs) (build dy td ys)) as (c & Hc); [congruence|].
     rewrite Hc. f_equal. destruct (vadd_spec _ _ _ Hc) as (U1 & U2 & U3).
     apply vsh_flat_inj.
@@ -328,7 +328,7 @@ Section AsML.
     destruct (fold_acc_def rz z HZ) as (Z0 & HZ0). destruct (fold_acc_spec _ _ _ HZ0) as (Z1 & _ & Z3).
     destruct (vadd_def X Y) as (Z & HZa); [congruence|].
     destruct (vadd_spec _ _ _ HZa) as (W1 & W2 & W3).
-    exists Z. split; [exact HZa|]. rewrite HZ0. f_equal. apply vsh_flat_inj; [congruence|].
+    exists Z. split; [exact HZa|]. transitivity (Some Z0); [exact HZ0|]. f_equal. apply vsh_flat_inj; [congruence|].
     rewrite Z3, W3, X3, Y3, S3. now apply fold_interchange.
   Qed.
 
@@ -526,14 +526,15 @@ Section AsML.
     List.length (snd (vunflat s v)) = List.length v - struct_size s.
   Proof.
     induction s as [sd|k ss IH] using pt_ind'; intros v H.
-    - unfold struct_size in H. cbn in H. cbn [AsMatrix.vunflat fst snd]. rewrite vflat_leaf, firstn_skipn.
-      unfold struct_size. cbn. rewrite firstn_length, skipn_length. repeat split; try f_equal; lia.
+    - unfold struct_size in H. cbn [flatten map fold_right] in H. cbn [AsMatrix.vunflat fst snd]. rewrite vflat_leaf, firstn_skipn.
+      unfold struct_size. cbn [pmap flatten map fold_right]. rewrite firstn_length, skipn_length.
+      split; [f_equal; lia|]. split; [reflexivity|lia].
     - rewrite vunflat_node, struct_size_node in *.
       assert (HL : forall v, lsum (map struct_size ss) <= List.length v ->
                 map vsh (fst (vunflat_list ss v)) = map shp ss /\
                 List.concat (map vflat (fst (vunflat_list ss v))) ++ snd (vunflat_list ss v) = v /\
                 List.length (snd (vunflat_list ss v)) = List.length v - lsum (map struct_size ss)).
-      { clear v H. induction IH as [|s ss' Hs _ IHl]; intros v H; cbn in H |- *.
+      { clear v H. unfold lsum. induction IH as [|s ss' Hs _ IHl]; intros v H; cbn [map fold_right vunflat_list] in H |- *.
         - repeat split; lia.
         - destruct (Hs v ltac:(lia)) as (A1 & A2 & A3). destruct (vunflat s v) as [c r1]. cbn [fst snd] in *.
           destruct (IHl r1 ltac:(lia)) as (B1 & B2 & B3). destruct (vunflat_list ss' r1) as [cs r2]. cbn [fst snd] in *.
